@@ -165,6 +165,18 @@ def check_map(ctx, Canon, aliases, preferred, rng, steps):
     # constructor keywords through aliases
     init_vals = {v: round(rng.uniform(1, 9), 2) for v in VARS}
     chosen = {v: rng.choice(spellings[v]) for v in VARS}
+    # another instance of the same class whose alias table was edited in place beforehand (every declared alias re-pointed to a
+    # different variable): the instance under test still follows the declared map
+    try:
+        noise = construct(ctx, A, {}, case)       # under the same step budget as the instance under test
+        if noise == 'budget':
+            return
+        for a_ in list(noise.aliases):
+            noise.aliases[a_] = VARS[(VARS.index(noise.aliases[a_]) + 1) % len(VARS)] if noise.aliases[a_] in VARS else VARS[0]
+        noise.aliases['Qq'] = VARS[0]
+        ctx.count('sibling_alias_tables_edited')
+    except Exception:
+        pass
     m = construct(ctx, A, {chosen[v]: init_vals[v] for v in VARS} if not has_cycle else {}, case)
     if m == 'budget':
         return
